@@ -15,7 +15,8 @@ TABLE = json.load(open(os.path.join(HERE, "tools", "mutants.json")))
 
 
 def main():
-    want = {a.upper() for a in sys.argv[1:]}
+    want = {a.split(":")[0].upper() for a in sys.argv[1:]}
+    subs = {a.split(":")[0].upper(): a.split(":", 1)[1] for a in sys.argv[1:] if ":" in a}
     st = subprocess.run(["git", "-C", "/repo", "status", "--porcelain", "--untracked-files=no"],
                         capture_output=True, text=True).stdout.strip()
     if st:
@@ -24,6 +25,8 @@ def main():
     results = []
     for m in TABLE:
         if want and m["prop"] not in want:
+            continue
+        if m["prop"] in subs and subs[m["prop"]] not in m["name"]:
             continue
         if "revert_commit" in m:
             c = m["revert_commit"]
